@@ -520,12 +520,24 @@ pre_type(struct emu *emu)
 		return -1;
 	}
 
+	/* The jumbo data holds the type id and the label, including the nil */
+	uint32_t size = emu->ev->payload->jumbo.size;
+	if (size < 4 + 1) {
+		err("jumbo event too small: %u bytes", size);
+		return -1;
+	}
+
 	const uint8_t *data = &emu->ev->payload->jumbo.data[0];
 	uint32_t typeid;
 	memcpy(&typeid, data, 4); /* May be unaligned */
 	data += 4;
 
 	const char *label = (const char *) data;
+
+	if (memchr(label, '\0', size - 4) == NULL) {
+		err("label of type %u is not terminated", typeid);
+		return -1;
+	}
 
 	struct nanos6_proc *proc = EXT(emu->proc, '6');
 	struct task_info *info = &proc->task_info;
